@@ -1981,6 +1981,7 @@ func (h *handler) getPartitionLog(ctx context.Context, topic string, partition i
 
 	// Requests for other partitions proceed in parallel; only one goroutine
 	// per partition does the actual initialization.
+	autoCreated := false
 	for {
 		key := fmt.Sprintf("%s/%d", topic, partition)
 		result, err, _ := h.logInit.Do(key, func() (interface{}, error) {
@@ -2025,10 +2026,14 @@ func (h *handler) getPartitionLog(ctx context.Context, topic string, partition i
 			return plog, nil
 		})
 		if err != nil {
-			if errors.Is(err, metadata.ErrUnknownTopic) && h.autoCreateTopics {
+			// Retry once after auto-creation. If the topic already exists with fewer
+			// partitions, ensureTopic succeeds without changing anything and the
+			// lookup would fail (and loop) forever.
+			if errors.Is(err, metadata.ErrUnknownTopic) && h.autoCreateTopics && !autoCreated {
 				if err := h.ensureTopic(ctx, topic, partition); err != nil {
 					return nil, err
 				}
+				autoCreated = true
 				continue
 			}
 			return nil, err
